@@ -181,6 +181,21 @@ func loadKnown() []KnownFinding {
 	return out.Findings
 }
 
+var knownCache []KnownFinding
+var knownLoaded bool
+
+func isKnownFingerprint(prop, fp string) bool {
+	if !knownLoaded {
+		knownCache, knownLoaded = loadKnown(), true
+	}
+	for _, k := range knownCache {
+		if k.Status == "known" && k.Property == prop && k.Fingerprint == fp {
+			return true
+		}
+	}
+	return false
+}
+
 // ---------------------------------------------------------------------------
 // Parent
 
